@@ -54,3 +54,17 @@ check('C12', 'objsim', 'exploration',
       'deterministic simulation: seeded operation histories vs reference model (list), refused edits as injected faults',
       'DESIGN.md 4.1')
 PENDING.pop('C12', None)
+check('C13', 'objsim', 'exploration',
+      'Seeded histories in three families, judged by frozen canonical snapshots: (observe) interleavings with repeats '
+      'of compose / ja3 / hassh / fingerprints / key_tag / as_json / as_markdown / _asdict / str / repr on corpus-parsed, '
+      'factory-built and default-constructed objects, with failing calls provoked at the cipher-suite ceiling - the '
+      'object must stay equal to its snapshot, every observer must repeat its first outcome, the class-level text '
+      'encoder must be left as found; (buffer) the same bytes parsed from bytes and from a bytearray through all entry '
+      'points, then the receive buffer is overwritten / cleared / extended and the object edited while the buffer is '
+      'watched; (defaults) for every attrs class with defaulted fields: construct, mutate defaulted fields in place, '
+      'construct again. Runs that edit objects execute in a forked child so state cannot leak between runs.',
+      'Trusted: canon() over public fields as the equality; "mutable" = list, bytearray, dict, set, vector, non-frozen '
+      'attrs instance. Thread pre-emption of observers is deliberately not a criterion.',
+      'deterministic simulation: seeded observer / buffer-reuse / instance-lifetime histories vs frozen snapshots',
+      'DESIGN.md 4.2')
+PENDING.pop('C13', None)
